@@ -1,8 +1,9 @@
 (* Props/C10.v — Tucker decompositions (hosvd, tucker_als). Only statements, `exact`, Print Assumptions.
    Partial by design (DESIGN §C10): exact real arithmetic; LAPACK/ARPACK are certificate-checked oracles in the
    correspondence (Model/C10Check.v). *)
-From Coq Require Import List Arith Bool Reals Ring.
-From PV Require Import Base.Index Base.Sum Np.Array Np.NpR Model.C10Tucker Proofs.C10Proofs Proofs.C10Ttm Proofs.C10Spectral.
+From Coq Require Import List Arith Bool ZArith Reals Ring.
+From PV Require Import Base.Index Base.Sum Np.Array Np.NpR Model.Repr Model.C10Tucker Proofs.C10Proofs Proofs.C10Ttm Proofs.C10Spectral
+                       Proofs.C10Proj Proofs.C10ProjR.
 Import ListNotations.
 Local Open Scope R_scope.
 
@@ -133,7 +134,102 @@ Proof. exact (ttm_den_comm V v0 v1 vadd vmul vsub vopp Vring). Qed.
 End C10_ring.
 Print Assumptions C10_core_relation_order.
 
+(* ---- the abstract space and its projectors INSTANTIATED by concrete dense real tensors and mode-n products (wave 3) ---- *)
+(* dense real arrays of a fixed shape with the Frobenius inner product satisfy the three laws assumed in C10_space *)
+Theorem C10_frob_space : forall (s : shape),
+  (forall a b, innerR s a b = innerR s b a) /\
+  (forall a b c, innerR s (subR s a b) c = innerR s a c - innerR s b c) /\
+  (forall a, 0 <= innerR s a a).
+Proof. exact frob_space. Qed.
+Print Assumptions C10_frob_space.
+
+(* X |-> X x_n M with M symmetric and idempotent is an orthogonal projector (additive, idempotent, self-adjoint) *)
+Theorem C10_mode_projector : forall (s : shape) (n : nat) (M : @matrix R),
+  (n < length s)%nat -> msymR (nth n s 0%nat) M -> midemR (nth n s 0%nat) M ->
+  oproj (dense R) (subR s) (innerR s) (projR s n M).
+Proof. exact oproj_mode. Qed.
+Print Assumptions C10_mode_projector.
+
+(* ... in particular M = U U^T for a factor U (I_n x r) with orthonormal columns *)
+Theorem C10_uut_projector : forall (s : shape) (n r : nat) (U : @matrix R),
+  (n < length s)%nat -> orthocols R 0 1 Rplus Rmult (nth n s 0%nat) r U ->
+  oproj (dense R) (subR s) (innerR s) (projR s n (uut R 0 Rplus Rmult (nth n s 0%nat) r U)).
+Proof. exact oproj_uut. Qed.
+Print Assumptions C10_uut_projector.
+
+(* projectors of pairwise different modes commute (the pairwise_commute hypothesis of the abstract theorems) *)
+Theorem C10_modes_commute : forall (s : shape) (mMs : list (nat * @matrix R)),
+  Forall (good_mode s) mMs -> NoDup (map fst mMs) -> pairwise_commute (dense R) (projs s mMs).
+Proof. exact modes_commute. Qed.
+Print Assumptions C10_modes_commute.
+
+(* C10_projector_bound / C10_error_bound for concrete tensors: no hypothesis about the space or the projectors is left *)
+Theorem C10_concrete_projector_bound : forall (s : shape) (mMs : list (nat * @matrix R)) (X : dense R),
+  Forall (good_mode s) mMs -> NoDup (map fst mMs) ->
+  let Ps := projs s mMs in
+  nrm2 (dense R) (innerR s) (subR s X (applyPs (dense R) Ps X)) = sumR (terms (dense R) (subR s) (innerR s) X Ps) /\
+  Forall2 Rle (terms (dense R) (subR s) (innerR s) X Ps) (direct (dense R) (subR s) (innerR s) X Ps).
+Proof. exact concrete_projector_bound. Qed.
+Print Assumptions C10_concrete_projector_bound.
+
+Theorem C10_concrete_error_bound : forall (s : shape) (mMs : list (nat * @matrix R)) (X : dense R) (tolsq : R),
+  mMs <> [] -> Forall (good_mode s) mMs -> NoDup (map fst mMs) ->
+  let Ps := projs s mMs in
+  let budget := tolsq * nrm2 (dense R) (innerR s) X / INR (length Ps) in
+  (Forall (fun t => t <= budget) (terms (dense R) (subR s) (innerR s) X Ps) \/
+   Forall (fun t => t <= budget) (direct (dense R) (subR s) (innerR s) X Ps)) ->
+  nrm2 (dense R) (innerR s) (subR s X (applyPs (dense R) Ps X)) <= tolsq * nrm2 (dense R) (innerR s) X.
+Proof. exact concrete_error_bound. Qed.
+Print Assumptions C10_concrete_error_bound.
+
+(* ||X - T||^2 = ||X||^2 - ||T||^2 for T = X x_n M_n over the treated modes: the identity behind the reported fit *)
+Theorem C10_concrete_fit : forall (s : shape) (mMs : list (nat * @matrix R)) (X : dense R),
+  Forall (good_mode s) mMs -> NoDup (map fst mMs) ->
+  let T := applyPs (dense R) (projs s mMs) X in
+  nrm2 (dense R) (innerR s) (subR s X T) = nrm2 (dense R) (innerR s) X - nrm2 (dense R) (innerR s) T.
+Proof. exact concrete_pythagoras. Qed.
+Print Assumptions C10_concrete_fit.
+
+Section C10_ring_proj.
+Variable V : Type.
+Variables (v0 v1 : V) (vadd vmul vsub : V -> V -> V) (vopp : V -> V).
+Hypothesis Vring : ring_theory v0 v1 vadd vmul vsub vopp (@eq V).
+(* what hosvd's shrink followed by ttensor.full does in one mode — (X x_n U^T) x_n U with the model's ttm — IS the projector
+   X x_n (U U^T); every commutative ring, every shape, every U *)
+Theorem C10_ttm_is_projector : forall (X : dense V) (n r : nat) (U : @matrix V),
+  (n < length (dshape X))%nat -> nrows U = nth n (dshape X) 0%nat ->
+  ttm v0 vadd vmul (ttm v0 vadd vmul X n (mtrans v0 U (nth n (dshape X) 0%nat) r)) n U =
+  mproj V v0 vadd vmul (dshape X) n (uut V v0 vadd vmul (nth n (dshape X) 0%nat) r U) X.
+Proof. exact (ttm_ttm_uut V v0 v1 vadd vmul vsub vopp Vring). Qed.
+(* U^T U = I  ==>  U U^T symmetric and idempotent *)
+Theorem C10_uut_sym_idem : forall (I r : nat) (U : @matrix V),
+  orthocols V v0 v1 vadd vmul I r U ->
+  msym V v0 I (uut V v0 vadd vmul I r U) /\ midem V v0 vadd vmul I (uut V v0 vadd vmul I r U).
+Proof. exact (uut_sym_idem V v0 v1 vadd vmul vsub vopp Vring). Qed.
+End C10_ring_proj.
+Print Assumptions C10_ttm_is_projector.
+Print Assumptions C10_uut_sym_idem.
+
 (* non-vacuity *)
+Example C10_example_concrete_space :
+  let s := [2; 2]%nat in
+  let X := mkDense s [1; 2; 3; 4] in
+  let mMs := [(0%nat, uut R 0 Rplus Rmult 2 1 U35)] in
+  Forall (good_mode s) mMs /\ NoDup (map fst mMs) /\
+  oproj (dense R) (subR s) (innerR s) (projR s 0 (uut R 0 Rplus Rmult 2 1 U35)) /\
+  ddata (projR s 0 (uut R 0 Rplus Rmult 2 1 U35) X) =
+    [ (3/5*(3/5) + 0) * 1 + ((3/5*(4/5) + 0) * 2 + 0); (4/5*(3/5) + 0) * 1 + ((4/5*(4/5) + 0) * 2 + 0);
+      (3/5*(3/5) + 0) * 3 + ((3/5*(4/5) + 0) * 4 + 0); (4/5*(3/5) + 0) * 3 + ((4/5*(4/5) + 0) * 4 + 0) ] /\
+  nrm2 (dense R) (innerR s) (subR s X (applyPs (dense R) (projs s mMs) X)) =
+    nrm2 (dense R) (innerR s) X - nrm2 (dense R) (innerR s) (applyPs (dense R) (projs s mMs) X).
+Proof. exact concrete_space_example. Qed.
+Example C10_example_ttm_projector :
+  let X := mkDense [3; 2]%nat [1; 2; 3; 4; 5; 6]%Z in
+  let U := [[0; 1]; [-1; 0]; [0; 0]]%Z in
+  ttm 0%Z Z.add Z.mul (ttm 0%Z Z.add Z.mul X 0 (mtrans 0%Z U 3 2)) 0 U = mkDense [3; 2]%nat [1; 2; 0; 4; 5; 0]%Z /\
+  mproj Z 0%Z Z.add Z.mul [3; 2]%nat 0 (uut Z 0%Z Z.add Z.mul 3 2 U) X = mkDense [3; 2]%nat [1; 2; 0; 4; 5; 0]%Z /\
+  ddata (ttm 0%Z Z.add Z.mul X 0 (mtrans 0%Z U 3 2)) = [-2; 1; -5; 4]%Z.
+Proof. exact ttm_ttm_uut_example. Qed.
 Example C10_example_ttm :
   let X := mkDense [2; 3]%nat [1; 2; 3; 4; 5; 6]%nat in
   let A := [[1; 2]; [0; 1]; [3; 0]]%nat in let B := [[1; 0; 2]; [0; 1; 1]]%nat in
